@@ -1,5 +1,6 @@
 import NeumannModel.Common.Proto
 import NeumannModel.Raft.Model
+import NeumannModel.Raft.Snap
 /- Line-protocol driver for the Raft model (C01). State = config + nodes. -/
 open Neumann Neumann.Proto Neumann.Raft
 
@@ -121,6 +122,23 @@ def raftStep (cl : Cluster) (line : String) : Cluster × String :=
       | some nd => let nd' := crashRestart nd; (setNode cl i nd', "ok || " ++ showNode nd')
       | none => bad
     | none => bad
+  | ["snap", src, dst, k, fresh] =>
+    -- leader `src`: finalize_to k + create_snapshot (its log up to k); `dst`: install_snapshot
+    -- (`fresh` = the snapshot is newer than the last one `dst` installed since its start, else refused)
+    match src.toNat?, dst.toNat?, k.toNat?, parseBool fresh with
+    | some s, some d, some k, some fresh =>
+      match getNode cl s, getNode cl d with
+      | some sn, some dn =>
+        let snap := sn.log.take k
+        match snap.getLast? with
+        | some last =>
+          if fresh then
+            let dn' := installSnapshot dn last.term snap
+            (setNode cl d dn', "ok || " ++ showNode dn')
+          else (cl, "refused || " ++ showNode dn)
+        | none => bad
+      | _, _ => bad
+    | _, _, _, _ => bad
   | ["state", i] =>
     match i.toNat? with
     | some i => match getNode cl i with
